@@ -80,6 +80,34 @@ func c21MemPlan(seed uint64, class int, mode, k, bulk int64) *harness.Plan {
 	return p
 }
 
+// c21LateOldPlan: two consensus operations close together, and an ordinary
+// snapshot of another chain that is OLDER (by its timestamp) than the first of
+// them but reaches the target late: it is stored between the second
+// operation's snapshot write and its record write (the other chain loop of the
+// same node runs in between), and the node is cut right there. The newest
+// stored snapshot then carries a timestamp below the last record's although an
+// unrecorded consensus snapshot precedes it in the store.
+func c21LateOldPlan(seed uint64, class int) *harness.Plan {
+	p := c21MemPlan(seed, class, 1, 0, 0)
+	rng := core.NewRng(core.SplitMix64(seed ^ 0x1a7e01d))
+	name := c21Classes[class].name
+	p.Params["late_old"] = 1
+	p.Ops = nil
+	add := func(kind string, a int64) {
+		p.Ops = append(p.Ops, harness.Op{Kind: "mem." + kind, A: a, N: rng.IntN(9), S: fmt.Sprint(kind, len(p.Ops))})
+	}
+	add("ordinary", int64(rng.IntN(100)))
+	if name == "accept" {
+		add("pledge", 0)
+	}
+	add("holdold", int64(rng.IntN(100)))
+	add("custodian", 0)
+	add("deliverold", 0)
+	add(name, 0)
+	add("ordinary", int64(rng.IntN(100)))
+	return p
+}
+
 func c21MemEnumerate(tier string, seed uint64) []*harness.Plan {
 	var out []*harness.Plan
 	histories := 1
@@ -105,6 +133,13 @@ func c21MemEnumerate(tier string, seed uint64) []*harness.Plan {
 				}
 			}
 		}
+		// the late older snapshot between snapshot write and record write, for the classes that can follow a
+		// custodian update at once
+		for _, class := range []int{0, 2, 3} {
+			if true {
+				out = append(out, c21LateOldPlan(hs, class))
+			}
+		}
 		if tier != "thorough" {
 			// the long gap between consensus operations, once per tier: more than one page of the start-up scan
 			out = append(out, c21MemPlan(hs, 3, 3, 0, 520), c21MemPlan(hs, 0, 1, 0, 130))
@@ -121,12 +156,73 @@ func c21MemExec(p *harness.Plan) *harness.Outcome {
 		mon = &c21Mon{r: r, target: int(p.P("target", 0)) % nodes, mode: int(p.P("mode", 1)), k: int(p.P("k", 0)), onlyType: class.typ,
 			pending: map[int]*common.Snapshot{}, written: map[int]*common.Snapshot{}}
 		r.c.AddMonitor(mon)
+		if p.P("late_old", 0) == 1 {
+			mon.interleave = 1
+			if class.name == "custodian" {
+				mon.skipFirst = 1 // the first custodian update is the earlier operation, the second one is cut
+			}
+			var held *injected
+			r.extra["mem.holdold"] = func(op harness.Op, idx int) {
+				m := r.mem
+				target := r.c.Nodes[mon.target]
+				// an ordinary snapshot on the chain of a member other than the target, stamped now; everybody
+				// but the target gets it
+				var owner *memIdent
+				for k, id := range m.leaders() {
+					if id.idx != mon.target && (owner == nil || k == int(op.A)%len(m.leaders())) {
+						owner = id
+					}
+				}
+				if owner == nil {
+					return
+				}
+				m.inj.now = m.now()
+				it, err := m.inj.nextWith(m.inj.chainIndex(owner.id), false, nil)
+				if err != nil {
+					return
+				}
+				// on the target the loop of that chain gets no turn from now on (the peers' synchronisation
+				// would hand it the snapshot anyway)
+				target.PollOnly = map[crypto.Hash]bool{}
+				for _, id := range target.Node.SimChainIDs() {
+					if id != owner.id {
+						target.PollOnly[id] = true
+					}
+				}
+				r.fault("sched.chain_loop_held_back", r.c.Q.Now+30*time.Second)
+				for to := 0; to < r.c.Cfg.Nodes; to++ {
+					if to != target.Idx {
+						m.inj.deliver(r.c.External(), r.c.Nodes[to], it.tx, it.snap, time.Duration(to)*time.Millisecond)
+					}
+				}
+				m.applied = append(m.applied, it)
+				held = it
+				q := owner.id
+				m.quietChain = &q
+				r.c.Run(r.c.Q.Now + 2*time.Second)
+			}
+			r.extra["mem.deliverold"] = func(op harness.Op, idx int) {
+				m := r.mem
+				target := r.c.Nodes[mon.target]
+				if held == nil || !target.Alive {
+					return
+				}
+				// the target learns it (again) now; its loop for that chain still gets no turn
+				m.inj.deliver(r.c.External(), target, held.tx, held.snap, time.Millisecond)
+				r.c.Run(r.c.Q.Now + time.Second)
+				if s, _ := target.Store.ReadSnapshot(held.snap.Hash); s == nil {
+					r.out.Probes["older_snapshot_pending_on_target"]++
+				}
+			}
+		}
 	})
 	if fail != nil {
 		return fail
 	}
 	defer r.c.Close()
 	c := r.c
+	c.Nodes[mon.target].PollOnly = nil
+	r.out.Probes["other_chain_writes_between_snapshot_and_record"] += mon.interleaved
 	// everything that was finalized must be on every node in the end, the restarted target included
 	missing := 0
 	if !c.Halt {
